@@ -291,6 +291,7 @@ func buildIntrinsics() map[string]intrinsic {
 	addSyncIntrinsics(m)
 	addMiscIntrinsics(m)
 	addEnvIntrinsics(m)
+	addFSIntrinsics(m)
 	addRegexpIntrinsics(m)
 	return m
 }
